@@ -383,6 +383,18 @@ func scanC18(a *App, m *Mon, sc *StepCtx, rng *rand.Rand, names []string, provs 
 			}
 		}
 	}
+	// every provider of the universe has one pending request on the first service, so that
+	// each by-binding scan has neighbours to confuse its subject with
+	for pi, p := range provs {
+		cid, bn, h := ctxIDs[0], uint64(777), int64(300)
+		rid := types.GenerateRequestID(cid, bn, h, int16(pi))
+		k.SetCompactRequest(ctx, rid, types.NewCompactRequest(cid, bn, p, coins(1), h, h+5))
+		k.AddActiveRequest(ctx, names[0], p, h+5, rid)
+		key := rk{hexs(cid), bn}
+		reqsOf[key] = append(reqsOf[key], hexs(rid))
+		activeOfBatch[key] = append(activeOfBatch[key], hexs(rid))
+		activeOfBinding[names[0]+"/"+hexs(p)] = append(activeOfBinding[names[0]+"/"+hexs(p)], hexs(rid))
+	}
 	qHeights := []int64{1, 255, 256, 257, 65535, 65536, 1<<32 - 1, 1 << 32}
 	expAt := map[int64][]string{}
 	newAt := map[int64][]string{}
